@@ -254,6 +254,28 @@ def run(ctx):
                 judge(ctx, eng, sfront, crlf, "gen-crlf", h(crlf))
             if len(res.samples) < 2 and 100 < len(text) < 600 and "#" in text:
                 res.sample({"source": text, "printed_with_comments": eng.dumps(eng.loads(text, include_comments=True))})
+        # every way the grammar lets a string be written, as key and as value of the key-value blocks (plain, single, back-quoted,
+        # with the i flag, unquoted), nested and at the root, with and without comments around
+        forms = [('"%s"', "dq"), ("'%s'", "sq"), ("`%s`", "bq"), ('"%s"i', "dqi"), ("'%s'i", "sqi"), ("%s", "bare")]
+        hosts = [("LAYER\n  NAME \"l\"\n  %s\n%s  END\nEND\n", "METADATA"), ("LAYER\n  %s\n%s  END\nEND\n", "VALIDATION"),
+                 ("LAYER\n  %s\n%s  END\nEND\n", "CONNECTIONOPTIONS"), ("SCALETOKEN\n  NAME \"%%x%%\"\n  %s\n%s  END\nEND\n", "VALUES"),
+                 ("%s\n%s  END\n", "METADATA"), ("MAP\n  WEB\n  %s\n%s  END\n  END\nEND\n", "METADATA")]
+        k = 0
+        for fk, nk in forms:
+            for fv, nv in forms:
+                for hi, (host, kw) in enumerate(hosts):
+                    k += 1
+                    if not ctx.mine(k):
+                        continue
+                    key = fk % ("Wms_Title" if nk == "bare" else "wms title" if nk != "bare" and (k % 2) else "Wms_Title")
+                    val = fv % ("value_1" if nv == "bare" else "some value")
+                    body = f"    {key} {val}" + (" # trailing" if k % 3 == 0 else "") + "\n    \"other\" \"x\"\n"
+                    if k % 4 == 0:
+                        body = "    # above the pair\n" + body
+                    text = host % (kw, body)
+                    res.count("string_form_documents")
+                    res.seen("string-form-pairs", f"{nk}/{nv} in {kw}{' at the root' if hi == 4 else ''}")
+                    judge(ctx, eng, sfront, text, "string-forms", h(text))
         # documents spread over INCLUDE files (comments on the INCLUDE lines and inside the included files, multi-line strings)
         from . import C15
         import mappyfile
